@@ -2,9 +2,11 @@
    Only statements, each closed by [exact] and followed by Print Assumptions. *)
 From GV Require Import Prelude.Base Model.WsX Model.WsXSpec Proofs.WsXWorld.
 
-(* PARTIAL (exact side condition [wfresh_run]: no entity is created or copied under an identifier that still has a stale
-   flat node in the receiving file, drawn identifiers are fresh): after ANY such two-workspace history, close + open of
-   either workspace succeeds and yields its live tree (up to the order of children and of property-group blocks) *)
+(* PARTIAL (SUFFICIENT side condition [wfresh_run]: no entity is created or copied under an identifier that still has a
+   stale flat node in the receiving file, drawn identifiers are fresh): after ANY such two-workspace history, close + open of
+   either workspace succeeds and yields its live tree (up to the order of children and of property-group blocks).
+   Sufficient, not necessary (a re-use over a stale node with identical content is harmless and is rejected too); what is
+   proved about its sharpness is one excluded witness (C01_world_reopen_refuted). *)
 Theorem C01_wreopen_partial : forall ops i, wfresh_run ops winit = true ->
   let W := wrun ops winit in
   snd (wstep W (On i Reopen)) = Done /\
